@@ -635,6 +635,43 @@ static void pad_exact(vp_ctx_t* c, uint32_t n)
     }
 }
 
+/* messages at a 4 GiB address boundary: address arithmetic done in 32 bits (a wrap check, a cursor, an alignment mask) goes
+ * wrong only where the message or its pad bytes touch or cross a multiple of 2^32 */
+static void pad_boundary(vp_ctx_t* c)
+{
+    static const uint64_t ks[] = { 0x7101, 0x7211, 0x6f01, 0x7346, 0x1235 };
+    uint8_t* pg = 0;
+    for (unsigned i = 0; i < 5 && !pg; i++) pg = vp_map_at((ks[i] << 32) - 8192, 16384);
+    if (!pg) { vp_stat(c, "boundary.unavailable", 1); return; }
+    uint8_t* B = pg + 8192;
+    static uint8_t exp[16384];
+    uint64_t placed = 0;
+    for (uint32_t n = 12; n <= 2044; n++) {
+        uint32_t pad = (4 - n % 4) % 4;
+        /* start positions: padded message ends at B; every way the pad bytes can straddle B; message starts at B; B in the middle */
+        int64_t starts[8] = { -(int64_t)(n + pad), -(int64_t)n, -(int64_t)n - 1, -(int64_t)n - 2, -(int64_t)(n + pad) + 1, 0, -(int64_t)(n / 2), 4096 - (int64_t)(n + pad) };
+        for (int si = 0; si < 8; si++) {
+            uint8_t* p = B + starts[si];
+            vp_rng_fill(&c->rng, pg, 16384);
+            for (uint32_t q = 0; q < pad; q++) if (p[n + q] == 0) p[n + q] = 0x5C;       /* dirty pad bytes */
+            memcpy(exp, pg, 16384);
+            uint8_t* e = exp + (p - pg);
+            bf_set(e, POS_LEN, 9, (n + pad) / 4); bf_set(e, POS_PAD, 2, pad); memset(e + n, 0, pad);
+            padcall_t k = { p, n };
+            vp_curop("vss-pad-4GiB-boundary", "", "", n);
+            vp_call(c);
+            int sig = vp_try(pad_thunk, &k);
+            c->evals++; placed++;
+            char res[2] = { (char)('0' + n % 4), 0 };
+            if (sig) { if (vp_viol(c, "pad", "message-at-4GiB-address-boundary", "fault", "len%4=", res, 0)) { o_s(c, "{\"length\":"); o_u(c, n); o_s(c, ",\"signal\":"); o_u(c, (uint64_t)sig); o_s(c, "}"); o_end(c); } }
+            else if (memcmp(pg, exp, 16384) != 0 && vp_viol(c, "pad", "message-at-4GiB-address-boundary", "bytes-differ", "len%4=", res, 0)) {
+                o_s(c, "{\"length\":"); o_u(c, n); o_s(c, ",\"start_relative_to_boundary\":\""); if (starts[si] < 0) { o_s(c, "-"); o_u(c, (uint64_t)(-starts[si])); } else o_u(c, (uint64_t)starts[si]); o_s(c, "\"}"); o_end(c);
+            }
+        }
+    }
+    vp_stat(c, "boundary.pad_placements", placed);
+}
+
 static void pad_one(vp_ctx_t* c, uint32_t n, uint64_t r)
 {
     msg_t m;
@@ -687,6 +724,7 @@ static void do_pad(vp_ctx_t* c, uint64_t reps)
 {
     msg_t m;
     for (uint32_t n = 12; n <= 2044; n++) pad_exact(c, n);
+    pad_boundary(c);
     for (uint32_t n = 12; n <= 2044; n++)
         for (uint64_t r = 0; r < reps; r++) pad_one(c, n, r);
     /* all 512 values of the length field through the dedicated accessors vs the generic ones */
@@ -881,6 +919,27 @@ static void do_strarr_case(vp_ctx_t* c, uint64_t idx)
                 }
             }
         }
+    }
+    /* one shared "not wanted" descriptor (no destination) for every slot but one: a caller that wants a single string of the
+     * list may describe all others by the same object - the wanted string must still arrive, from its own place in the array */
+    if (n >= 3) {
+        uint32_t j = (uint32_t)(idx % n);
+        VssDataString_t* skip = &so[n];
+        for (uint32_t i = 0; i < n; i++) sp[i] = (i == j) ? &so[i] : skip;
+        skip->data = 0; skip->data_length = 0xABCD;
+        uint8_t* d = blk_alloc(lens[j]);
+        so[j].data = (char*)d; so[j].data_length = (uint16_t)(idx & 1 ? 0 : 0xFFFF);
+        vp_curop("vss-deserialize-strings-shared-skip-descriptor", "", "", n);
+        vp_call(c);
+        Avtp_Vss_DeserializeStringArray(arr, sp, (uint16_t)n);
+        c->evals++;
+        if ((so[j].data_length != lens[j] || memcmp(d, strs[j], lens[j]) != 0 || skip->data != 0) && vp_viol(c, "strarr", "deserialize", "shared-skip-descriptor", "wanted-string-differs", 0, 0)) {
+            o_s(c, "{\"strings\":"); o_u(c, n); o_s(c, ",\"wanted_index\":"); o_u(c, j); o_s(c, ",\"len\":"); o_u(c, lens[j]); o_s(c, ",\"reported_len\":"); o_u(c, so[j].data_length); o_s(c, "}"); o_end(c);
+        }
+        if (!blk_ok(d, lens[j]) && vp_viol(c, "strarr", "deserialize", "shared-skip-descriptor", "wrote-beyond-destination", 0, 0)) { o_s(c, "{\"index\":"); o_u(c, j); o_s(c, "}"); o_end(c); }
+        vp_heap_free(d);
+        for (uint32_t i = 0; i < n + extra && i < MAXSTR + 8; i++) sp[i] = &so[i];
+        vp_arena_resync(&O);
     }
     if (g_samples && (idx % 13) == 2) {
         g_samples--; c->outn = 0;
